@@ -306,6 +306,39 @@ def mutants():
             ks[i], ks[j] = ks[j], ks[i]
             m.parameter_keys = ks
         muts.append((f"keys-out-of-order:{i}{j}", swap, False))
+
+    def defaults_swapped(m, i, j):
+        orig = m.get_parameter_defaults
+
+        def get_parameter_defaults():
+            import lmfit
+            P = orig()
+            keys = list(P.keys())
+            keys[i], keys[j] = keys[j], keys[i]
+            Q = lmfit.Parameters()
+            for k in keys:
+                Q.add(k, value=P[k].value, min=P[k].min, max=P[k].max,
+                      vary=P[k].vary)
+            return Q
+        m.get_parameter_defaults = get_parameter_defaults
+
+    def args_reordered(m):
+        f = m.model_func
+
+        def verif_model(delta, R, E, contact_point=0, baseline=0):
+            return f(delta, E=E, R=R, contact_point=contact_point,
+                     baseline=baseline)
+        verif_model.__doc__ = f.__doc__
+        m.model_func = verif_model
+    # defaults out of order, alone and together with a model function that
+    # takes its arguments in another order than parameter_keys (which on
+    # its own is legitimate: the registry only warns)
+    for i, j in ((0, 1), (1, 2), (2, 3), (0, 3), (1, 3)):
+        muts.append((f"defaults-out-of-order:{i}{j}",
+                     lambda m, i=i, j=j: defaults_swapped(m, i, j), False))
+        muts.append((f"args-reordered+defaults-out-of-order:{i}{j}",
+                     lambda m, i=i, j=j: (args_reordered(m),
+                                          defaults_swapped(m, i, j)), False))
     return muts
 
 
